@@ -237,5 +237,555 @@ Lemma absq_items_eq : forall s1 s, g_chain s1 = g_chain s -> g_h s1 = g_h s ->
   (forall n, In n (g_chain s) -> val_of s1 n = val_of s n) -> absq_items s1 = absq_items s.
 Proof.
   intros s1 s E1 E2 V. unfold absq_items. rewrite E1, E2. apply map_ext_in.
-  intros n Hin. rewrite V; [reflexivity|]. eapply (In_skipn); eauto.
+  intros n Hin. rewrite V; [reflexivity|].
+  rewrite <- (firstn_skipn (S (g_h s)) (g_chain s)). apply in_or_app. right. exact Hin.
+Qed.
+
+(* ---- steps that only append an event of thread t to the history ---- *)
+Lemma inv_log : forall s t e th',
+  Inv s -> ev_tid e = t ->
+  apply_ev e (absq_items s) = Some (absq_items s) ->
+  enqs (e :: g_hist s) = enqs (g_hist s) ->
+  call_ids (e :: g_hist s) = call_ids (g_hist s) ->
+  lag th' = lag (get_thread (threads s) t) ->
+  thread_inv (log_ev s e) t th' ->
+  Inv (upd_thread (log_ev s e) t th').
+Proof.
+  intros s t e th' I Ht A E C L T. eapply inv_step_general; eauto.
+  - constructor; cbn; auto.
+    + right. exists e. auto.
+    + intros n nd H. exists nd. auto.
+  - apply (inv_chain _ I).
+  - cbn [g_hist log_ev replay]. rewrite (inv_replay _ I). exact A.
+  - change (len s = wrap_i32 (Z.of_nat (List.length (absq_items s)) +
+              (total_lag s - lag (get_thread (threads s) t) + lag th'))).
+    rewrite (inv_len _ I). f_equal. lia.
+  - cbn [g_hist g_chain log_ev]. rewrite E. apply (inv_enqs _ I).
+  - cbn [g_hist heap log_ev]. rewrite C. apply (inv_ids _ I).
+Qed.
+
+(* ---- the final add of the length counter, with the response event ---- *)
+Lemma inv_add_len : forall s t e d th',
+  Inv s -> ev_tid e = t ->
+  apply_ev e (absq_items s) = Some (absq_items s) ->
+  enqs (e :: g_hist s) = enqs (g_hist s) ->
+  call_ids (e :: g_hist s) = call_ids (g_hist s) ->
+  lag th' = lag (get_thread (threads s) t) + d ->
+  thread_inv (log_ev (add_len s d) e) t th' ->
+  Inv (upd_thread (log_ev (add_len s d) e) t th').
+Proof.
+  intros s t e d th' I Ht A E C L T. eapply inv_step_general; eauto.
+  - constructor; cbn; auto.
+    + right. exists e. auto.
+    + intros n nd H. exists nd. auto.
+  - apply (inv_chain _ I).
+  - cbn [g_hist log_ev add_len replay]. rewrite (inv_replay _ I). exact A.
+  - change (wrap_i32 (len s + d) = wrap_i32 (Z.of_nat (List.length (absq_items s)) +
+              (total_lag s - lag (get_thread (threads s) t) + lag th'))).
+    rewrite (inv_len _ I), wrap_i32_add. f_equal. lia.
+  - cbn [g_hist g_chain log_ev add_len]. rewrite E. apply (inv_enqs _ I).
+  - cbn [g_hist heap log_ev add_len]. rewrite C. apply (inv_ids _ I).
+Qed.
+
+(* ---- start of a call ---- *)
+Lemma step_start_deq : forall s t, Inv s -> t_pc (get_thread (threads s) t) = Idle ->
+  Inv (upd_thread (log_ev s (CallDeq t)) t (mkThread D1 0 None None None None 0)).
+Proof.
+  intros s t I PC. pose proof (inv_threads _ I t) as T. unfold thread_inv in T. rewrite PC in T.
+  apply inv_log; auto.
+  - unfold lag. rewrite PC. reflexivity.
+  - unfold thread_inv, in_deq. cbn. rewrite Nat.eqb_refl, T. exists false. reflexivity.
+Qed.
+
+Lemma step_start_enq : forall s t v, Inv s -> t_pc (get_thread (threads s) t) = Idle ->
+  Inv (upd_thread
+         (mkG (heap s ++ [mkNode v None]) (head s) (tail s) (len s) (threads s)
+              (g_chain s) (g_h s) (g_t s) (CallEnq t (List.length (heap s)) v :: g_hist s))
+         t (mkThread E1 v (Some (List.length (heap s))) None None None 0)).
+Proof.
+  intros s t v I PC. pose proof (inv_threads _ I t) as T. unfold thread_inv in T. rewrite PC in T.
+  set (n := List.length (heap s)).
+  set (s1 := mkG _ _ _ _ _ _ _ _ _).
+  assert (V : forall m, In m (g_chain s) -> val_of s1 m = val_of s m).
+  { intros m Hm. apply (chain_in_heap _ _ I) in Hm. unfold val_of, s1. cbn [heap].
+    rewrite nth_error_app1 by exact Hm. reflexivity. }
+  assert (AQ : absq_items s1 = absq_items s) by (apply absq_items_eq; auto).
+  destruct (inv_chain _ I) as [Cnd [Cnx [Chd [Ctl [Cle [Clt Cln]]]]]].
+  eapply inv_step_general; eauto.
+  - constructor; cbn; auto.
+    + right. eexists. split; [reflexivity|reflexivity].
+    + intros m nd H. exists nd. splits; auto. apply nth_error_app_l. exact H.
+  - unfold chain_inv. cbn. splits; auto.
+    intros i m H. destruct (Cnx i m H) as [nd [A B]]. exists nd. split; auto. apply nth_error_app_l. exact A.
+  - rewrite AQ. cbn [g_hist s1 replay]. rewrite (inv_replay _ I). reflexivity.
+  - rewrite AQ. change (len s1) with (len s). rewrite (inv_len _ I). f_equal.
+    unfold lag at 1. rewrite PC. cbn. lia.
+  - unfold thread_inv, pre_link. cbn. exists n. splits; auto.
+    + intro Hin. apply (chain_in_heap _ _ I) in Hin. unfold n in Hin. lia.
+    + apply nth_error_snoc_last.
+    + rewrite Nat.eqb_refl, T. reflexivity.
+  - cbn. apply (inv_enqs _ I).
+  - cbn [g_hist s1 call_ids heap]. destruct (inv_ids _ I) as [D1 D2]. split.
+    + apply nodup_snoc. split; auto. intro Hin. apply D2 in Hin. unfold n in Hin. lia.
+    + intros m Hm. rewrite app_length. cbn. apply in_app_or in Hm. destruct Hm as [Hm|[Hm|[]]].
+      * apply D2 in Hm. lia.
+      * subst m. unfold n. lia.
+Qed.
+
+(* ---- thread-local steps of Enqueue ---- *)
+Ltac thread_facts I t Hth PC T :=
+  pose proof (inv_threads _ I t) as T; rewrite <- Hth in T; unfold thread_inv in T; rewrite PC in T.
+
+Lemma tail_now : forall s, Inv s -> exists p, tail s = Some p /\ nth_error (g_chain s) (g_t s) = Some p.
+Proof.
+  intros s I. destruct (inv_chain _ I) as [_ [_ [_ [Ctl [_ [Clt _]]]]]].
+  destruct (nth_error (g_chain s) (g_t s)) as [p|] eqn:E.
+  - exists p. auto.
+  - apply nth_error_None in E. lia.
+Qed.
+
+Lemma head_now : forall s, Inv s -> exists p, head s = Some p /\ nth_error (g_chain s) (g_h s) = Some p.
+Proof.
+  intros s I. destruct (inv_chain _ I) as [_ [_ [Chd [_ [Cle [Clt _]]]]]].
+  destruct (nth_error (g_chain s) (g_h s)) as [p|] eqn:E.
+  - exists p. auto.
+  - apply nth_error_None in E. lia.
+Qed.
+
+Lemma step_E1 : forall s t th, Inv s -> th = get_thread (threads s) t -> t_pc th = E1 ->
+  Inv (upd_thread s t (set_pc (set_l_tail th (tail s)) E2)).
+Proof.
+  intros s t th I Hth PC. thread_facts I t Hth PC T. apply inv_local; auto.
+  - rewrite <- Hth. unfold lag. rewrite PC. reflexivity.
+  - unfold thread_inv. cbn. split; [exact T|].
+    destruct (tail_now _ I) as [p [A B]]. exists (g_t s), p. cbn. auto.
+Qed.
+
+Lemma step_E2 : forall s t th p nd, Inv s -> th = get_thread (threads s) t -> t_pc th = E2 ->
+  l_tail th = Some p -> nth_error (heap s) p = Some nd ->
+  Inv (upd_thread s t (set_pc (set_l_next th (n_next nd)) E3)).
+Proof.
+  intros s t th p nd I Hth PC LT HP. thread_facts I t Hth PC T. destruct T as [P [i TA]].
+  apply inv_local; auto.
+  - rewrite <- Hth. unfold lag. rewrite PC. reflexivity.
+  - unfold thread_inv. cbn. split; [exact P|]. exists i. split; [exact TA|].
+    destruct TA as [p' [A [B C]]]. rewrite LT in A. inv A.
+    destruct (chain_heap _ _ _ I B) as [nd' [D E]]. rewrite HP in D. inv D.
+    right. cbn. exact E.
+Qed.
+
+Lemma step_E2_nocrash : forall s t th, Inv s -> th = get_thread (threads s) t ->
+  (t_pc th = E2 \/ t_pc th = E4) ->
+  exists p nd, l_tail th = Some p /\ nth_error (heap s) p = Some nd.
+Proof.
+  intros s t th I Hth PC. pose proof (inv_threads _ I t) as T. rewrite <- Hth in T. unfold thread_inv in T.
+  assert (exists i, tail_at s th i) as [i [p [A [B C]]]].
+  { destruct PC as [PC|PC]; rewrite PC in T; destruct T as [_ [i T]]; exists i; tauto. }
+  destruct (chain_heap _ _ _ I B) as [nd [D _]]. eauto.
+Qed.
+
+Lemma step_E3 : forall s t th, Inv s -> th = get_thread (threads s) t -> t_pc th = E3 ->
+  Inv (upd_thread s t (if ptr_eqb (l_tail th) (tail s)
+                       then (if is_nil (l_next th) then set_pc th E4 else set_pc th E7)
+                       else set_pc th E1)).
+Proof.
+  intros s t th I Hth PC. thread_facts I t Hth PC T. destruct T as [P [i [TA NK]]].
+  apply inv_local; auto.
+  - rewrite <- Hth. unfold lag. rewrite PC. destruct (ptr_eqb _ _); [destruct (is_nil _)|]; reflexivity.
+  - destruct (ptr_eqb (l_tail th) (tail s)); [destruct (is_nil (l_next th)) eqn:N|].
+    + unfold thread_inv. cbn. split; [exact P|]. exists i. split; [exact TA|]. apply is_nil_true. exact N.
+    + unfold thread_inv. cbn. split; [exact P|]. exists i. split; [exact TA|].
+      destruct NK as [NK|NK]; [rewrite NK in N; discriminate|].
+      destruct (l_next th) as [nx|] eqn:LN; [|discriminate]. exists nx. split; [exact LN|symmetry; exact NK].
+    + unfold thread_inv. cbn. exact P.
+Qed.
+
+(* ---- thread-local steps of Dequeue ---- *)
+Lemma step_D1 : forall s t th, Inv s -> th = get_thread (threads s) t -> t_pc th = D1 ->
+  Inv (upd_thread s t (set_pc (set_l_head th (head s)) D2)).
+Proof.
+  intros s t th I Hth PC. thread_facts I t Hth PC T. apply inv_local; auto.
+  - rewrite <- Hth. unfold lag. rewrite PC. reflexivity.
+  - unfold thread_inv. cbn. split; [exact T|].
+    destruct (head_now _ I) as [p [A B]]. exists (g_h s), p. cbn. auto.
+Qed.
+
+Lemma step_D2 : forall s t th, Inv s -> th = get_thread (threads s) t -> t_pc th = D2 ->
+  Inv (upd_thread s t (set_pc (set_l_tail th (tail s)) D3)).
+Proof.
+  intros s t th I Hth PC. thread_facts I t Hth PC T. destruct T as [P [j HA]].
+  apply inv_local; auto.
+  - rewrite <- Hth. unfold lag. rewrite PC. reflexivity.
+  - unfold thread_inv. cbn. split; [exact P|].
+    destruct (tail_now _ I) as [p [A B]]. exists j, (g_t s). splits.
+    + exact HA.
+    + exists p. cbn. auto.
+    + destruct HA as [q [_ [_ Hle]]]. destruct (inv_chain _ I) as [_ [_ [_ [_ [Cle _]]]]]. lia.
+Qed.
+
+(* ---- cas(&q.tail, tail, new) where new is the chain successor of the local tail (E5, E7, D5) ---- *)
+Lemma inv_cas_tail : forall s t th new th' i,
+  Inv s -> th = get_thread (threads s) t ->
+  tail_at s th i -> (exists n, new = Some n /\ nth_error (g_chain s) (S i) = Some n) ->
+  lag th' = lag th ->
+  (forall s1, g_chain s1 = g_chain s -> heap s1 = heap s -> g_hist s1 = g_hist s -> g_h s1 = g_h s ->
+              thread_inv s1 t th') ->
+  Inv (upd_thread (fst (cas_tail s (l_tail th) new)) t th').
+Proof.
+  intros s t th new th' i I Hth [p [LT [Cp Ci]]] [n [Hn Cn]] L T.
+  unfold cas_tail. destruct (ptr_eqb (tail s) (l_tail th)) eqn:E; cbn [fst].
+  - apply ptr_eqb_eq in E. destruct (tail_now _ I) as [p' [A B]].
+    assert (p' = p) by congruence. subst p'.
+    assert (i = g_t s) by (eapply chain_pos_eq; eauto). subst i.
+    destruct (inv_chain _ I) as [Cnd [Cnx [Chd [Ctl [Cle [Clt Cln]]]]]].
+    eapply inv_step_general; eauto.
+    + constructor; cbn; auto. intros m nd H. exists nd. auto.
+    + unfold chain_inv. cbn [g_chain g_h g_t head tail heap]. splits; auto.
+      * congruence.
+      * eapply nth_error_lt; eauto.
+      * lia.
+    + apply (inv_replay _ I).
+    + change (len s = wrap_i32 (Z.of_nat (List.length (absq_items s)) +
+                (total_lag s - lag (get_thread (threads s) t) + lag th'))).
+      rewrite (inv_len _ I). f_equal. rewrite <- Hth. lia.
+    + apply (inv_enqs _ I).
+    + apply (inv_ids _ I).
+  - apply inv_local; auto. congruence.
+Qed.
+
+(* ---- E6 / D7: count, respond ---- *)
+Lemma step_E6 : forall s t th, Inv s -> th = get_thread (threads s) t -> t_pc th = E6 ->
+  Inv (upd_thread (log_ev (add_len s 1) (RetEnq t)) t (set_pc th Idle)).
+Proof.
+  intros s t th I Hth PC. thread_facts I t Hth PC T. destruct T as [n T].
+  apply inv_add_len; auto.
+  - rewrite <- Hth. unfold lag. rewrite PC. reflexivity.
+  - unfold thread_inv. cbn. rewrite Nat.eqb_refl, T. reflexivity.
+Qed.
+
+Lemma step_D7 : forall s t th, Inv s -> th = get_thread (threads s) t -> t_pc th = D7 ->
+  Inv (upd_thread (log_ev (add_len s (-1)) (RetDeq t (Some (l_task th)))) t (set_pc th Idle)).
+Proof.
+  intros s t th I Hth PC. thread_facts I t Hth PC T.
+  apply inv_add_len; auto.
+  - rewrite <- Hth. unfold lag. rewrite PC. reflexivity.
+  - unfold thread_inv. cbn. rewrite Nat.eqb_refl, T. cbn. rewrite Z.eqb_refl. reflexivity.
+Qed.
+
+(* ---- E4: the link CAS (linearization point of Enqueue) ---- *)
+Lemma val_of_set_next : forall s h' p nx m, h' = set_next (heap s) p nx ->
+  forall s1, heap s1 = h' -> val_of s1 m = val_of s m.
+Proof.
+  intros s h' p nx m -> s1 E. unfold val_of. rewrite E.
+  destruct (Nat.eq_dec p m) as [->|Hne].
+  - destruct (nth_error (heap s) m) as [nd|] eqn:A.
+    + rewrite (set_next_same _ _ _ _ A). reflexivity.
+    + assert (nth_error (set_next (heap s) m nx) m = None) as ->; [|reflexivity].
+      apply nth_error_None. rewrite set_next_length. apply nth_error_None. exact A.
+  - rewrite set_next_other by exact Hne. reflexivity.
+Qed.
+
+Lemma step_E4_fail : forall s t th, Inv s -> th = get_thread (threads s) t -> t_pc th = E4 ->
+  Inv (upd_thread s t (set_pc th E1)).
+Proof.
+  intros s t th I Hth PC. thread_facts I t Hth PC T. destruct T as [P _].
+  apply inv_local; auto.
+  rewrite <- Hth. unfold lag. rewrite PC. reflexivity.
+Qed.
+
+Lemma step_E4_link : forall s t th p nd, Inv s -> th = get_thread (threads s) t -> t_pc th = E4 ->
+  l_tail th = Some p -> nth_error (heap s) p = Some nd -> n_next nd = l_next th ->
+  exists n, l_n th = Some n /\
+  Inv (upd_thread
+         (mkG (set_next (heap s) p (Some n)) (head s) (tail s) (len s) (threads s)
+              (g_chain s ++ [n]) (g_h s) (g_t s) (LinEnq t n (t_val th) :: g_hist s))
+         t (set_pc th E5)).
+Proof.
+  intros s t th p nd I Hth PC LT HP NX. thread_facts I t Hth PC T.
+  destruct T as [[n [LN [NC [HN TP]]]] [i [[q [A [Cp Ci]]] LNx]]].
+  assert (q = p) by congruence. subst q. clear A. exists n. split; [exact LN|].
+  destruct (inv_chain _ I) as [Cnd [Cnx [Chd [Ctl [Cle [Clt Cln]]]]]].
+  destruct (chain_heap _ _ _ I Cp) as [nd' [HP' NXC]]. assert (nd' = nd) by congruence. subst nd'. clear HP'.
+  rewrite NX, LNx in NXC. symmetry in NXC. apply nth_error_None in NXC.
+  pose proof (nth_error_lt _ _ _ _ Cp) as Ilt.
+  assert (Si : S i = List.length (g_chain s)) by lia.
+  assert (Hpn : p <> n). { intro; subst. apply NC. eapply nth_error_In; eauto. }
+  set (s1 := mkG _ _ _ _ _ _ _ _ _).
+  assert (V : forall m, val_of s1 m = val_of s m).
+  { intro m. eapply val_of_set_next; reflexivity. }
+  assert (AQ : absq_items s1 = absq_items s ++ [(n, t_val th)]).
+  { unfold absq_items. cbn [g_chain g_h s1]. rewrite skipn_app_le by lia. rewrite map_app. f_equal.
+    - apply map_ext. intro m. rewrite V. reflexivity.
+    - cbn. rewrite V. unfold val_of. rewrite HN. reflexivity. }
+  eapply inv_step_general; eauto.
+  - constructor; cbn [g_chain g_h g_t g_hist heap s1]; auto.
+    + right. exists n, (t_val th). auto.
+    + right. eexists. split; reflexivity.
+    + intros m ndm H. destruct (Nat.eq_dec p m) as [<-|Hne].
+      * assert (ndm = nd) by congruence. subst ndm. rewrite (set_next_same _ _ _ _ H). eexists. splits; [reflexivity|reflexivity|].
+        intro C. exfalso. apply C. eapply nth_error_In; eauto.
+      * rewrite set_next_other by exact Hne. exists ndm. auto.
+  - unfold chain_inv. cbn [g_chain g_h g_t head tail heap s1]. splits.
+    + apply nodup_snoc. auto.
+    + intros k m Hk. destruct (Nat.lt_ge_cases k (List.length (g_chain s))) as [Hlt|Hge].
+      * rewrite nth_error_app1 in Hk by exact Hlt.
+        destruct (Cnx k m Hk) as [ndm [Hm Nm]].
+        destruct (Nat.eq_dec k i) as [->|Hki].
+        -- assert (m = p) by congruence. subst m. assert (ndm = nd) by congruence. subst ndm.
+           rewrite (set_next_same _ _ _ _ Hm). eexists. split; [reflexivity|]. cbn [n_next].
+           rewrite Si. symmetry. apply nth_error_snoc_last.
+        -- assert (m <> p). { intro; subst m. apply Hki. eapply chain_pos_eq; eauto. }
+           rewrite set_next_other by congruence. exists ndm. split; [exact Hm|].
+           rewrite Nm. symmetry. apply nth_error_app1. lia.
+      * assert (k = List.length (g_chain s)).
+        { apply nth_error_lt in Hk. rewrite app_length in Hk. cbn in Hk. lia. }
+        subst k. rewrite nth_error_snoc_last in Hk. assert (m = n) by congruence. subst m.
+        rewrite set_next_other by exact Hpn. eexists. split; [exact HN|]. cbn [n_next].
+        symmetry. apply nth_error_None. rewrite app_length. cbn. lia.
+    + rewrite Chd. symmetry. apply nth_error_app1. lia.
+    + rewrite Ctl. symmetry. apply nth_error_app1. lia.
+    + exact Cle.
+    + rewrite app_length. cbn. lia.
+    + rewrite app_length. cbn. lia.
+  - rewrite AQ. cbn [g_hist s1 replay]. rewrite (inv_replay _ I). reflexivity.
+  - rewrite AQ. change (len s1) with (len s). rewrite (inv_len _ I). f_equal.
+    rewrite app_length. cbn [List.length]. rewrite <- Hth. unfold lag. rewrite PC. cbn. lia.
+  - unfold thread_inv. cbn [t_pc set_pc]. exists n, i. splits.
+    + exact LN.
+    + exists p. splits; auto. cbn [g_chain s1]. apply nth_error_app_l. exact Cp.
+    + cbn [g_chain s1]. rewrite Si. apply nth_error_snoc_last.
+    + cbn [g_hist s1 t_val set_pc]. rewrite tphase_cons_same by reflexivity. rewrite TP. cbn.
+      rewrite Nat.eqb_refl, Z.eqb_refl. reflexivity.
+  - cbn [g_chain g_hist s1 enqs]. rewrite map_app. cbn. rewrite (inv_enqs _ I) at 1. reflexivity.
+  - cbn [g_hist s1 call_ids heap]. rewrite set_next_length. apply (inv_ids _ I).
+Qed.
+
+(* ---- D3: next := load(&head.next); the candidate "empty" linearization point ---- *)
+Lemma absq_empty_at_end : forall s, Inv s -> nth_error (g_chain s) (S (g_h s)) = None -> absq_items s = [].
+Proof.
+  intros s I H. unfold absq_items. apply nth_error_None in H. rewrite skipn_all2 by exact H. reflexivity.
+Qed.
+
+Lemma step_D3 : forall s t th p nd, Inv s -> th = get_thread (threads s) t -> t_pc th = D3 ->
+  l_head th = Some p -> nth_error (heap s) p = Some nd ->
+  Inv (upd_thread (if ptr_eqb (Some p) (head s) && is_nil (n_next nd) then log_ev s (EmptyAt t) else s)
+                  t (set_pc (set_l_next th (n_next nd)) D4)).
+Proof.
+  intros s t th p nd I Hth PC LH HP. rewrite <- LH. thread_facts I t Hth PC T.
+  destruct T as [[b TP] [j [i [HA [TA Lji]]]]].
+  assert (HA' := HA). destruct HA' as [q [A [Cj Hj]]]. assert (q = p) by congruence. subst q. clear A.
+  destruct (chain_heap _ _ _ I Cj) as [nd' [HP' NX]]. assert (nd' = nd) by congruence. subst nd'. clear HP'.
+  destruct (head_now _ I) as [hp [Hhd Chp]].
+  assert (L : lag (set_pc (set_l_next th (n_next nd)) D4) = lag (get_thread (threads s) t)).
+  { rewrite <- Hth. unfold lag. rewrite PC. reflexivity. }
+  destruct (ptr_eqb (l_head th) (head s) && is_nil (n_next nd))%bool eqn:Cond.
+  - apply andb_prop in Cond. destruct Cond as [C1 C2]. apply ptr_eqb_eq in C1. apply is_nil_true in C2.
+    assert (hp = p) by congruence. subst hp.
+    assert (j = g_h s) by (eapply chain_pos_eq; eauto). subst j.
+    assert (AQ : absq_items s = []). { apply absq_empty_at_end; auto. congruence. }
+    apply inv_log; auto.
+    + rewrite AQ. reflexivity.
+    + unfold thread_inv. cbn [t_pc set_pc]. split.
+      * exists true. cbn [g_hist log_ev]. rewrite tphase_cons_same by reflexivity. rewrite TP. destruct b; reflexivity.
+      * exists (g_h s), i. splits.
+        -- exact HA.
+        -- exact TA.
+        -- exact Lji.
+        -- right. cbn [l_next set_pc set_l_next]. exact NX.
+        -- intros _. exact NX.
+        -- intros _ _. cbn [g_hist log_ev]. rewrite tphase_cons_same by reflexivity. rewrite TP. destruct b; reflexivity.
+  - apply inv_local; auto.
+    unfold thread_inv. cbn [t_pc set_pc]. split; [exists b; exact TP|].
+    exists j, i. splits.
+    + exact HA.
+    + exact TA.
+    + exact Lji.
+    + right. exact NX.
+    + intros _. exact NX.
+    + cbn [l_next set_pc set_l_next]. intros Hn Hjh. exfalso. subst j.
+      assert (hp = p) by congruence. subst hp.
+      assert (ptr_eqb (l_head th) (head s) = true) by (apply ptr_eqb_eq; congruence).
+      assert (is_nil (n_next nd) = true) by (apply is_nil_true; exact Hn).
+      rewrite H, H0 in Cond. discriminate.
+Qed.
+
+Lemma step_D3_nocrash : forall s t th, Inv s -> th = get_thread (threads s) t -> t_pc th = D3 ->
+  exists p nd, l_head th = Some p /\ nth_error (heap s) p = Some nd.
+Proof.
+  intros s t th I Hth PC. thread_facts I t Hth PC T.
+  destruct T as [_ [j [i [[p [A [Cj Hj]]] _]]]].
+  destruct (chain_heap _ _ _ I Cj) as [nd [D _]]. eauto.
+Qed.
+
+(* ---- D4: the validation head == load(&q.head) and the branches after it ---- *)
+Lemma step_D4 : forall s t s' o, Inv s -> t_pc (get_thread (threads s) t) = D4 ->
+  tstep s t CStep = (s', o) -> Inv s'.
+Proof.
+  intros s t s' o I PC H. unfold tstep in H. rewrite PC in H.
+  remember (get_thread (threads s) t) as th eqn:Hth.
+  thread_facts I t Hth PC T.
+  destruct T as [[b TP] [j [i [HA [TA [Lji [NK [NS SE]]]]]]]].
+  assert (HA' := HA). destruct HA' as [p [LH [Cj Hj]]].
+  assert (TA' := TA). destruct TA' as [q [LT [Ci Hi]]].
+  destruct (head_now _ I) as [hp [Hhd Chp]].
+  destruct (ptr_eqb (l_head th) (head s)) eqn:E1.
+  - apply ptr_eqb_eq in E1. assert (hp = p) by congruence. subst hp.
+    assert (j = g_h s) by (eapply chain_pos_eq; eauto). subst j.
+    destruct (ptr_eqb (l_head th) (l_tail th)) eqn:E2.
+    + apply ptr_eqb_eq in E2. assert (q = p) by congruence. subst q.
+      assert (i = g_h s) by (eapply chain_pos_eq; eauto). subst i.
+      destruct (is_nil (l_next th)) eqn:E3.
+      * (* return nil *)
+        apply is_nil_true in E3. injection H as <- _.
+        apply inv_log; auto.
+        -- rewrite <- Hth. unfold lag. rewrite PC. reflexivity.
+        -- unfold thread_inv. cbn [t_pc set_pc g_hist log_ev].
+           rewrite tphase_cons_same by reflexivity. rewrite (SE E3 eq_refl). reflexivity.
+      * (* tail is lagging: help *)
+        injection H as <- _. apply inv_local; auto.
+        -- rewrite <- Hth. unfold lag. rewrite PC. reflexivity.
+        -- unfold thread_inv. cbn [t_pc set_pc]. split; [exists b; exact TP|].
+           exists (g_h s). split; [exact TA|].
+           destruct NK as [NK|NK]; [rewrite NK in E3; discriminate|].
+           destruct (l_next th) as [nx|] eqn:LN; [|discriminate]. exists nx. split; [exact LN|symmetry; exact NK].
+    + apply ptr_eqb_neq in E2.
+      assert (Hne : g_h s <> i). { intro; subst i. apply E2. congruence. }
+      assert (Hlt : (g_h s < i)%nat) by lia.
+      specialize (NS Hlt). pose proof (nth_error_lt _ _ _ _ Ci) as Ilt.
+      destruct (nth_error (g_chain s) (S (g_h s))) as [nx|] eqn:Cn.
+      2:{ apply nth_error_None in Cn. lia. }
+      rewrite NS in H.
+      destruct (chain_heap _ _ _ I Cn) as [nd [Hnd _]]. rewrite Hnd in H.
+      injection H as <- _. apply inv_local; auto.
+      * rewrite <- Hth. unfold lag. rewrite PC. reflexivity.
+      * unfold thread_inv. cbn [t_pc set_pc set_l_task]. split; [exists b; exact TP|].
+        exists (g_h s). splits.
+        -- exact HA.
+        -- exists nx. split; [exact NS|exact Cn].
+        -- lia.
+        -- exists nx, nd. splits; auto.
+  - injection H as <- _. apply inv_local; auto.
+    + rewrite <- Hth. unfold lag. rewrite PC. reflexivity.
+    + unfold thread_inv. cbn [t_pc set_pc]. exists b. exact TP.
+Qed.
+
+(* ---- D6: the head CAS (linearization point of a successful Dequeue) ---- *)
+Lemma step_D6 : forall s t s' o, Inv s -> t_pc (get_thread (threads s) t) = D6 ->
+  tstep s t CStep = (s', o) -> Inv s'.
+Proof.
+  intros s t s' o I PC H. unfold tstep in H. rewrite PC in H.
+  remember (get_thread (threads s) t) as th eqn:Hth.
+  thread_facts I t Hth PC T.
+  destruct T as [[b TP] [j [HA [[nx [LN Cn]] [Sj [nx' [nd [LN' [Hnd Hval]]]]]]]]].
+  assert (nx' = nx) by congruence. subst nx'. clear LN'.
+  destruct HA as [p [LH [Cj Hj]]].
+  destruct (head_now _ I) as [hp [Hhd Chp]].
+  destruct (ptr_eqb (head s) (l_head th)) eqn:E1.
+  - apply ptr_eqb_eq in E1. assert (hp = p) by congruence. subst hp.
+    assert (j = g_h s) by (eapply chain_pos_eq; eauto). subst j.
+    rewrite LN in H. injection H as <- _.
+    destruct (inv_chain _ I) as [Cnd [Cnx [Chd [Ctl [Cle [Clt Cln]]]]]].
+    set (s1 := mkG _ _ _ _ _ _ _ _ _).
+    assert (AQ : absq_items s = (nx, l_task th) :: absq_items s1).
+    { unfold absq_items. cbn [g_chain g_h heap s1]. rewrite (skipn_nth _ _ _ _ Cn). cbn [map].
+      f_equal. unfold val_of. rewrite Hnd, Hval. reflexivity. }
+    eapply inv_step_general; eauto.
+    + constructor; cbn [g_chain g_h g_t g_hist heap s1]; auto.
+      * right. eexists. split; reflexivity.
+      * intros m ndm Hm. exists ndm. auto.
+    + unfold chain_inv. cbn [g_chain g_h g_t head tail heap s1]. splits; auto; try congruence.
+    + cbn [g_hist s1 replay]. rewrite (inv_replay _ I), AQ. unfold apply_ev, qstep.
+      rewrite item_eqb_refl. reflexivity.
+    + change (len s1) with (len s). rewrite (inv_len _ I), AQ. f_equal. cbn [List.length].
+      rewrite <- Hth. unfold lag. rewrite PC. cbn [t_pc set_pc]. lia.
+    + unfold thread_inv. cbn [t_pc set_pc g_hist s1 l_task].
+      rewrite tphase_cons_same by reflexivity. rewrite TP. destruct b; reflexivity.
+    + cbn [g_chain g_hist s1 enqs]. apply (inv_enqs _ I).
+    + cbn [g_hist s1 call_ids heap]. apply (inv_ids _ I).
+  - injection H as <- _. apply inv_local; auto.
+    + rewrite <- Hth. unfold lag. rewrite PC. reflexivity.
+    + unfold thread_inv. cbn [t_pc set_pc]. exists b. exact TP.
+Qed.
+
+(* ---- the invariant is inductive ---- *)
+Lemma inv_init : Inv init_state.
+Proof.
+  constructor.
+  - unfold chain_inv. cbn. splits; auto; try lia.
+    + constructor; [intros []|constructor].
+    + intros i n H. destruct i as [|i]; cbn in H.
+      * injection H as <-. eexists. split; reflexivity.
+      * destruct i; discriminate.
+  - reflexivity.
+  - reflexivity.
+  - intro t. cbn [threads init_state]. rewrite get_nil. reflexivity.
+  - reflexivity.
+  - cbn. split; [constructor|intros n []].
+Qed.
+
+Lemma pre_link_eq : forall s s1 t th, g_chain s1 = g_chain s -> heap s1 = heap s -> g_hist s1 = g_hist s ->
+  pre_link s t th -> pre_link s1 t th.
+Proof. intros s s1 t th E1 E2 E3 H. unfold pre_link in *. rewrite E1, E2, E3. exact H. Qed.
+
+Theorem inv_step : forall s t c s' o, Inv s -> tstep s t c = (s', o) -> Inv s'.
+Proof.
+  intros s t c s' o I H.
+  destruct (t_pc (get_thread (threads s) t)) eqn:PC.
+  all: try (destruct c; [| unfold tstep in H; rewrite PC in H; injection H as <- _; exact I
+                          | unfold tstep in H; rewrite PC in H; injection H as <- _; exact I]).
+  all: try (eapply step_D4; eassumption).
+  all: try (eapply step_D6; eassumption).
+  all: unfold tstep in H; rewrite PC in H.
+  all: remember (get_thread (threads s) t) as th eqn:Hth.
+  - (* Idle *)
+    destruct c.
+    + injection H as <- _. exact I.
+    + injection H as <- _. subst th. apply step_start_enq; auto.
+    + injection H as <- _. subst th. apply step_start_deq; auto.
+  - injection H as <- _. eapply step_E1; eauto.
+  - destruct (step_E2_nocrash s t th I Hth (or_introl PC)) as [p [nd [A B]]].
+    rewrite A, B in H. injection H as <- _. eapply step_E2; eauto.
+  - injection H as <- _. eapply step_E3; eauto.
+  - destruct (step_E2_nocrash s t th I Hth (or_intror PC)) as [p [nd [A B]]].
+    rewrite A, B in H. destruct (ptr_eqb (n_next nd) (l_next th)) eqn:E.
+    + apply ptr_eqb_eq in E.
+      destruct (step_E4_link s t th p nd I Hth PC A B E) as [n [LN I']].
+      rewrite LN in H. injection H as <- _. exact I'.
+    + injection H as <- _. eapply step_E4_fail; eauto.
+  - (* E5 *)
+    thread_facts I t Hth PC T. destruct T as [n [i [LN [TA [Cn TP]]]]].
+    destruct (cas_tail s (l_tail th) (l_n th)) as [s1 ok] eqn:CT. injection H as <- _.
+    change s1 with (fst (s1, ok)). rewrite <- CT.
+    eapply inv_cas_tail; eauto.
+    + unfold lag. rewrite PC. reflexivity.
+    + intros s2 _ _ E3 _. unfold thread_inv. cbn [t_pc set_pc t_val]. exists n. rewrite E3. exact TP.
+  - (* E6 *) injection H as <- _. eapply step_E6; eauto.
+  - (* E7 *)
+    thread_facts I t Hth PC T. destruct T as [P [i [TA NI]]].
+    destruct (cas_tail s (l_tail th) (l_next th)) as [s1 ok] eqn:CT. injection H as <- _.
+    change s1 with (fst (s1, ok)). rewrite <- CT.
+    eapply inv_cas_tail; eauto.
+    + unfold lag. rewrite PC. reflexivity.
+    + intros s2 E1 E2 E3 _. unfold thread_inv. cbn [t_pc set_pc].
+      apply (pre_link_eq s s2 t th E1 E2 E3). exact P.
+  - injection H as <- _. eapply step_D1; eauto.
+  - injection H as <- _. eapply step_D2; eauto.
+  - destruct (step_D3_nocrash s t th I Hth PC) as [p [nd [A B]]].
+    rewrite A, B in H. injection H as <- _. eapply step_D3; eauto.
+  - (* D5 *)
+    thread_facts I t Hth PC T. destruct T as [[b TP] [i [TA NI]]].
+    destruct (cas_tail s (l_tail th) (l_next th)) as [s1 ok] eqn:CT. injection H as <- _.
+    change s1 with (fst (s1, ok)). rewrite <- CT.
+    eapply inv_cas_tail; eauto.
+    + unfold lag. rewrite PC. reflexivity.
+    + intros s2 _ _ E3 _. unfold thread_inv. cbn [t_pc set_pc]. exists b. rewrite E3. exact TP.
+  - injection H as <- _. eapply step_D7; eauto.
+  - (* Crashed *) thread_facts I t Hth PC T. destruct T.
+Qed.
+
+Theorem inv_reachable : forall s, reachable ms_init ms_step s -> Inv s.
+Proof.
+  apply invariant_rule.
+  - intros s ->. apply inv_init.
+  - intros s [[t c] o] s' _ I H. unfold ms_step in H. cbn in H. eapply inv_step; eauto.
 Qed.
